@@ -177,6 +177,13 @@ nodesLoop:
 		}
 		node := nodes[i]
 
+		// The last statement decides whether the list is terminating.
+		switch node.(type) {
+		case *ast.Text, *ast.Comment, *ast.Raw:
+		default:
+			tc.terminating = false
+		}
+
 		switch node := node.(type) {
 
 		case *ast.Import:
@@ -348,6 +355,7 @@ nodesLoop:
 			if node.Else != nil {
 				node.Else.Nodes = tc.checkNodesInNewScope(node.Else, node.Else.Nodes)
 			}
+			tc.terminating = false
 
 		case *ast.Assignment:
 			tc.checkGenericAssignmentNode(node)
